@@ -341,6 +341,7 @@ def task_fresh(a, env):
     r = R("each-operation-alone-in-a-fresh-interpreter")
     lits = _lits_from_json(a["lits"])
     fresh = {}
+    raced = set()
     for oi, name in enumerate(a["ops"]):
         # thorough: two interpreters (hash seeds 0 and 1) per operation; quick: one, the seed alternating
         seeds = ("0", "1") if env["tier"] == "thorough" else (("0",) if (oi + a.get("parity", 0)) % 2 == 0 else ("1",))
@@ -378,6 +379,20 @@ def task_fresh(a, env):
                            recs[0]["short"], orec["short"], note="python -O")
         for k in recs[0].get("cache_like_changes", []):
             r.notes.setdefault("mutable_working_state_observed", {})[k] = 1
+        # module state that appears at first use: explore two threads with one preemption at every point
+        # where that state changes (cheapest operations only; each lazily built path once per task)
+        lazy = [k for k in recs[0].get("cache_like_changes", []) if k not in raced]
+        if lazy and cost <= 2:
+            raced.update(lazy)
+            try:
+                out = race_explore(name, lazy, lits)
+            except Exception as e:  # noqa: BLE001
+                out = ("error", repr(e)[:200])
+            r.notes.setdefault("thread_interleavings", {})[name] = str(out)[:200]
+            if out[0] not in ("none", "error"):
+                r.viol("C20:result-depends-on-thread-interleaving:%s" % name, ME + ":replay_race",
+                       {"op": name, "paths": lazy, "k": out[0], "lits": a["lits"]}, "the single-threaded result", "%s got another result" % out[1],
+                       note="thread A held at py_ecc line event %d (module state %s had just changed), the same operation run in a second thread" % (out[0], lazy[:2]))
     r.notes["fresh"] = fresh
     r.states = 1
     if a.get("sample"):
@@ -563,9 +578,148 @@ def run(ctx):
     ctx.pmap(ME, tasks)
 
 
+# ------------------------------------------------------------------ two threads, one preemption, at the points where lazily built module state changes
+_MISSING = object()
+
+
+def _getter(key):
+    """snapshot key ("module:name" / "cls module.Class.attr") -> function returning the current object"""
+    if key.startswith("cls "):
+        full = key[4:]
+        parts = full.split(".")
+        for cut in range(len(parts) - 2, 0, -1):
+            mod = sys.modules.get(".".join(parts[:cut]))
+            if mod is not None:
+                def g(mod=mod, rest=parts[cut:]):
+                    o = mod
+                    for nm in rest:
+                        o = getattr(o, nm, _MISSING)
+                        if o is _MISSING:
+                            return _MISSING
+                    return o
+                return g
+        return lambda: _MISSING
+    mname, name = key.split(":", 1)
+    return lambda: getattr(sys.modules.get(mname), name, _MISSING)
+
+
+def _probe(getters):
+    out = []
+    for g in getters:
+        v = g()
+        try:
+            n = len(v)
+        except Exception:  # noqa: BLE001
+            n = None
+        fp = None
+        if n is not None and n <= 64:
+            try:
+                fp = tuple(id(x) for x in (v.values() if isinstance(v, dict) else v))
+            except Exception:  # noqa: BLE001
+                fp = None
+        out.append((id(v), n, fp))
+    return tuple(out)
+
+
+def _race_child(req, lits):
+    """in a fresh interpreter.  k is None: run the operation once in a traced thread and list the line events
+    (inside py_ecc) right after which the watched module state had changed.  k given: thread A runs the
+    operation and is held at line event k; the operation runs to completion in a second thread; A resumes."""
+    import threading
+    init_process(lits)
+    name, k = req["race"]["op"], req["race"].get("k")
+    getters = [_getter(p) for p in req["race"]["paths"]]
+    cost, build = OPSM.get(name)
+
+    def run_op():
+        f, args, kwargs = build()
+        try:
+            return SN.digest(("ok", SN.canon(f(*args, **kwargs))))
+        except Exception as e:  # noqa: BLE001
+            return SN.digest(("raise", type(e).__name__))
+
+    st = {"n": 0, "last": _probe(getters), "points": [], "a": None, "b": None}
+    paused, go = threading.Event(), threading.Event()
+    a_ident = {}
+
+    def local(frame, event, arg):
+        if event == "line" and threading.get_ident() == a_ident.get("id"):
+            st["n"] += 1
+            if k is None:
+                pr = _probe(getters)
+                if pr != st["last"]:
+                    st["last"] = pr
+                    st["points"].append(st["n"])
+            elif st["n"] == k:
+                paused.set()
+                go.wait(600)
+        return local
+
+    def tracer(frame, event, arg):
+        return local if "/py_ecc/" in frame.f_code.co_filename else None
+
+    def thread_a():
+        a_ident["id"] = threading.get_ident()
+        sys.settrace(tracer)
+        try:
+            st["a"] = run_op()
+        finally:
+            sys.settrace(None)
+            paused.set()
+
+    ta = threading.Thread(target=thread_a)
+    ta.start()
+    if k is not None:
+        paused.wait(900)
+        tb = threading.Thread(target=lambda: st.__setitem__("b", run_op()))
+        tb.start()
+        tb.join(900)
+        go.set()
+    ta.join(1800)
+    after = run_op()
+    return {"points": st["points"], "events": st["n"], "a": st["a"], "b": st["b"], "after": after}
+
+
+def race_run(name, paths, lits, k=None, timeout=2400):
+    env = dict(os.environ)
+    env["PYTHONHASHSEED"] = "0"
+    env["PYTHONPATH"] = ROOT + (":" + env["PYTHONPATH"] if env.get("PYTHONPATH") else "")
+    env["PYTHONDONTWRITEBYTECODE"] = "1"
+    p = subprocess.run([sys.executable, "-m", "mc.props.C20"], cwd=ROOT, env=env, capture_output=True, text=True,
+                       input=json.dumps({"ops": [], "lits": _lits_to_json(lits), "race": {"op": name, "paths": paths, "k": k}}), timeout=timeout)
+    if p.returncode != 0:
+        raise RuntimeError("race interpreter failed: " + p.stderr[-1500:])
+    return json.loads(p.stdout.strip().splitlines()[-1])
+
+
+def race_explore(name, paths, lits, cap=40):
+    """None or (k, which, solo, observed): every single preemption of thread A at a point where the watched
+    module state had just changed, a second thread running the same operation meanwhile"""
+    d = race_run(name, paths, lits)
+    solo = d["a"]
+    pts = sorted(set(d["points"] + [x + 1 for x in d["points"]]))[:cap]
+    for k in pts:
+        r_ = race_run(name, paths, lits, k)
+        for which in ("a", "b", "after"):
+            if r_[which] is not None and r_[which] != solo:
+                return (k, {"a": "the preempted thread", "b": "the second thread", "after": "a later call in the same process"}[which], solo, r_[which], len(pts))
+    return ("none", len(pts), d["events"])
+
+
+def replay_race(a):
+    lits = _lits_from_json(a["lits"])
+    solo = race_run(a["op"], a["paths"], lits)["a"]
+    r_ = race_run(a["op"], a["paths"], lits, a["k"])
+    bad = [w for w in ("a", "b", "after") if r_[w] is not None and r_[w] != solo]
+    return None if not bad else {"preempted_at_line_event": a["k"], "differs": bad}
+
+
 def _main():
     req = json.loads(sys.stdin.read())
     lits = _lits_from_json(req["lits"])
+    if req.get("race"):
+        sys.stdout.write("\n" + json.dumps(_race_child(req, lits)) + "\n")
+        return
     if req.get("neighbour"):
         init_process(lits)
         for lbl, thunk in neighbour_calls(req["neighbour"][0]):
